@@ -5,6 +5,7 @@
 #![allow(dead_code, missing_docs, clippy::undocumented_unsafe_blocks, static_mut_refs)]
 extern crate alloc;
 use super::*;
+use zerocopy::FromZeros;
 
 fn put16(b: &mut [u8], off: usize, v: u16) { let x = v.to_le_bytes(); b[off] = x[0]; b[off + 1] = x[1]; }
 fn eq_n(a: &[u8], b: &[u8], n: usize) -> bool {
